@@ -131,6 +131,20 @@ func c17Purity(c *Ctx, m map[string]interface{}, opName string) {
 		c.Violate(opName, "receiver-modified", "purity", cas, nil, fmt.Sprintf("receiver before=%s\n receiver after =%s\n monitored stores into the receiver: %v", before, dump(m), writes))
 		return
 	}
+	if opName == "Copy" {
+		// Copy shares no mutable structure with the original (container identities are disjoint)
+		if cp, err := mxj.Map(m).Copy(); err == nil {
+			a, b := map[uintptr]bool{}, map[uintptr]bool{}
+			rt.Containers(m, a)
+			rt.Containers(map[string]interface{}(cp), b)
+			for p := range a {
+				if b[p] {
+					c.Violate(opName, "copy-shares-structure", "purity", cas, nil, fmt.Sprintf("receiver %s: the copy shares a map or list with the original", before))
+					return
+				}
+			}
+		}
+	}
 	if len(gw) > 0 {
 		c.Violate(opName, "writes-package-state", "purity", cas, nil, fmt.Sprintf("read-only operation wrote package-level variables %v (receiver %s)", gw, before))
 	}
@@ -408,6 +422,8 @@ func c17Run(c *Ctx) {
 					c.S.States++
 					c.S.Evaluations++
 					c17Purity(c, ms, op.name)
+					// the same MapSeq after a trip through JSON (sequence numbers are float64 then)
+					c17Purity(c, withSpare(fromJSON(jsonOf(map[string]interface{}(ms)))).(map[string]interface{}), op.name)
 				}
 			}
 		}
